@@ -376,6 +376,10 @@ Hang(e) ==
 Ident(e) == /\ Chk(<< <<"identity_" \o e.kind, {"C16"}, e.ok>> >>)
             /\ UNCH(<<nf, nx, mdl, batch, x0st, curxid, ptxid, bestf, bestBeforeFault, faulted, raisedSeen>>) /\ UNCH(Rest1)
 
+\* C12 / C13: one call of a step kernel; e.cl is a sequence of <<clause name, owner property, class holds>> computed by harness/kernels.py
+Kernel(e) == /\ Chk([i \in 1..Len(e.cl) |-> <<e.name \o "_" \o e.cl[i][1], {e.cl[i][2]}, e.cl[i][3]>>])
+             /\ UNCH(<<nf, nx, mdl, batch, x0st, curxid, ptxid, bestf, bestBeforeFault, faulted, raisedSeen>>) /\ UNCH(Rest1)
+
 Other(e) == /\ Chk(<< >>)
             /\ UNCH(<<nf, nx, mdl, batch, x0st, curxid, ptxid, bestf, bestBeforeFault, faulted, raisedSeen>>) /\ UNCH(Rest1)
 
@@ -420,6 +424,7 @@ Step ==
        [] e.ev = "Raise" -> Raise(e)
        [] e.ev = "Hang" -> Hang(e)
        [] e.ev = "Ident" -> Ident(e)
+       [] e.ev = "Kernel" -> Kernel(e)
        [] OTHER -> Other(e)
 
 Spec == Init /\ [][Step]_vars
